@@ -1383,15 +1383,17 @@ func symInt(s *Sym, leaf func(*Sym) (int64, bool)) (int64, bool) {
 
 // isStraightArith: a function with a body of one block that only computes with its numeric parameters.
 func isStraightArith(f *ssa.Function) bool {
-	if f.Blocks == nil || len(f.Blocks) != 1 || f.Signature.Recv() != nil || f.Signature.Results().Len() != 1 || len(f.Params) == 0 || len(f.FreeVars) > 0 {
+	if f.Blocks == nil || len(f.Blocks) != 1 || f.Signature.Recv() != nil || f.Signature.Results().Len() < 1 || len(f.Params) == 0 || len(f.FreeVars) > 0 {
 		return false
 	}
 	isNum := func(t types.Type) bool {
 		b, ok := t.Underlying().(*types.Basic)
 		return ok && b.Info()&types.IsNumeric != 0
 	}
-	if !isNum(f.Signature.Results().At(0).Type()) {
-		return false
+	for i := 0; i < f.Signature.Results().Len(); i++ {
+		if !isNum(f.Signature.Results().At(i).Type()) {
+			return false
+		}
 	}
 	for _, p := range f.Params {
 		if !isNum(p.Type()) {
